@@ -791,6 +791,99 @@ func runC04(c *Ctx) {
 		if header != phi.Block() {
 			okC, why = false, "counter φ is not at the head of the pacing loop"
 		}
+		if !okC && header == phi.Block() {
+			// path form (e.g. a `released` flag joining both offers before one `count++`): every way
+			// from a sent outcome back to the loop head passes exactly one count+1 and no further offer;
+			// no way round the loop increments without a sent outcome; nothing else reaches the head.
+			var incs []ssa.Instruction
+			okForm := true
+			for _, ie := range edges {
+				if z, isC := constInt(ie.v); isC {
+					if z != 0 || phi.Block().Dominates(ie.pred) {
+						okForm = false
+					}
+					continue
+				}
+				add, isAdd := ie.v.(*ssa.BinOp)
+				one := int64(0)
+				if isAdd {
+					one, _ = constInt(add.Y)
+				}
+				if !isAdd || add.Op != token.ADD || add.X != ssa.Value(phi) || one != 1 {
+					okForm = false
+					continue
+				}
+				incs = append(incs, add)
+			}
+			isInc := func(i ssa.Instruction) bool {
+				for _, x := range incs {
+					if x == i {
+						return true
+					}
+				}
+				return false
+			}
+			isOffer := func(i ssa.Instruction) bool {
+				for _, o := range a.Offers {
+					if o.At == i {
+						return true
+					}
+				}
+				return false
+			}
+			atHead := func(set map[ssa.Instruction]bool) bool {
+				for i := range set {
+					if i.Block() == header {
+						return true
+					}
+				}
+				return false
+			}
+			whyP := ""
+			if okForm && len(incs) > 0 && len(sentBlocks) > 0 {
+				for b := range sentBlocks {
+					set := exploreBlock(b, isInc)
+					if atHead(set) || len(returnsIn(set)) > 0 {
+						okForm, whyP = false, "a sent tick can reach the next iteration (or leave) without being counted"
+					}
+					for i := range set {
+						if isOffer(i) {
+							okForm, whyP = false, "after a tick was sent another tick can be offered in the same iteration"
+						}
+					}
+				}
+				for _, inc := range incs {
+					set := explore(inc, false, func(i ssa.Instruction) bool { return i.Block() == header })
+					for i := range set {
+						if isInc(i) || isOffer(i) {
+							okForm, whyP = false, "the counter is incremented twice, or a tick is offered after counting, within one iteration"
+						}
+					}
+				}
+				// from the loop head, the increment is unreachable unless a sent outcome was passed
+				set := exploreBlock(header, func(i ssa.Instruction) bool {
+					for b := range sentBlocks {
+						if len(b.Instrs) > 0 && i == b.Instrs[0] {
+							return true
+						}
+					}
+					return false
+				})
+				for i := range set {
+					if isInc(i) {
+						okForm, whyP = false, "the counter can be incremented without a tick having been sent"
+					}
+				}
+			} else {
+				okForm = false
+			}
+			if okForm {
+				okC, why = true, ""
+				nInc = len(incs)
+			} else if whyP != "" {
+				why = whyP
+			}
+		}
 		c.Check(okC, keyC, rCount, fmt.Sprintf("φ[0, +1 on %d sent outcomes]", nInc), why, c.at(pace))
 	}
 
@@ -834,12 +927,18 @@ func runC04(c *Ctx) {
 	keyD := "duration-check:" + shortFn(fn)
 	var cmpE, cmpD *ssa.BinOp
 	excOnTrue, posOnTrue := true, true
-	eachInstr(fn, func(i ssa.Instruction) {
+	// the test may live in a single-site predicate helper (expired(du, elapsed)): analysed as inlined
+	oldInline := inlineAware
+	inlineAware = true
+	inlineRoots[fn] = true
+	defer func() { inlineAware = oldInline; delete(inlineRoots, fn) }()
+	eachInstrI(fn, func(i ssa.Instruction) {
 		bo, ok := i.(*ssa.BinOp)
 		if !ok {
 			return
 		}
 		isDu := func(v ssa.Value) bool {
+			v = rootVal(v)
 			cell := loadedCell(v)
 			al, ok := cell.(*ssa.Alloc)
 			if !ok {
@@ -855,10 +954,11 @@ func runC04(c *Ctx) {
 			return false
 		}
 		// either polarity: `du > 0 && elapsed > du → stop` or `du <= 0 || elapsed <= du → go on`
+		isEl := func(v ssa.Value) bool { return rootVal(v) == elapsed }
 		switch {
-		case bo.Op == token.GTR && bo.X == elapsed && isDu(bo.Y), bo.Op == token.LSS && bo.Y == elapsed && isDu(bo.X):
+		case bo.Op == token.GTR && isEl(bo.X) && isDu(bo.Y), bo.Op == token.LSS && isEl(bo.Y) && isDu(bo.X):
 			cmpE, excOnTrue = bo, true
-		case bo.Op == token.LEQ && bo.X == elapsed && isDu(bo.Y), bo.Op == token.GEQ && bo.Y == elapsed && isDu(bo.X):
+		case bo.Op == token.LEQ && isEl(bo.X) && isDu(bo.Y), bo.Op == token.GEQ && isEl(bo.Y) && isDu(bo.X):
 			cmpE, excOnTrue = bo, false
 		case bo.Op == token.GTR && isDu(bo.X):
 			if z, ok := constInt(bo.Y); ok && z == 0 {
@@ -897,6 +997,22 @@ func runC04(c *Ctx) {
 		if ifE == nil {
 			ifE = implIf(cmpE, excOnTrue, 0)
 		}
+		var predicateExceeded *ssa.BasicBlock
+		if ifE == nil && cmpE.Parent() != fn {
+			// `return elapsed > du` in a predicate helper: the caller branches on the helper's result
+			if cs := singleSite(c.P, cmpE.Parent()); cs != nil && cs.Parent() == fn {
+				returned := false
+				eachInstr(cmpE.Parent(), func(j ssa.Instruction) {
+					if r, isR := j.(*ssa.Return); isR && len(r.Results) == 1 && r.Results[0] == ssa.Value(cmpE) {
+						returned = true
+					}
+				})
+				if cif := trueImpliesIf(cs); returned && cif != nil && excOnTrue {
+					ifE = cif
+					predicateExceeded = cif.Block().Succs[0]
+				}
+			}
+		}
 		okD := ifD != nil && ifE != nil && instrDominates(ifD, pace)
 		why := "the duration test does not dominate the Pace call"
 		var exceeded *ssa.BasicBlock
@@ -909,9 +1025,12 @@ func runC04(c *Ctx) {
 				okD, why = false, "`elapsed > du` is not evaluated on the `du > 0` edge"
 			} else {
 				exceeded = succOf(ifE, excOnTrue)
+				if predicateExceeded != nil {
+					exceeded = predicateExceeded
+				}
 				for _, i := range cmpE.Block().Instrs {
 					switch i.(type) {
-					case *ssa.UnOp, *ssa.BinOp, *ssa.If, *ssa.FieldAddr, *ssa.Jump, *ssa.Phi, *ssa.Convert, *ssa.ChangeType:
+					case *ssa.UnOp, *ssa.BinOp, *ssa.If, *ssa.FieldAddr, *ssa.Jump, *ssa.Phi, *ssa.Convert, *ssa.ChangeType, *ssa.Return:
 					default:
 						okD, why = false, "side effects between the two halves of the duration test"
 					}
@@ -1197,7 +1316,11 @@ func runC05(c *Ctx) {
 	const rLat = "Result.Latency = time.Since(Result.Timestamp) is stored by a closure deferred before every return that follows the critical section; it is the only store to Latency; the critical section precedes the transport call"
 	keyL := "latency-deferred:" + shortFn(hit)
 	var latStores []*ssa.Store
-	for _, fn := range withAnon(hit) {
+	latScope := withAnon(hit)
+	if a.HitDefer != nil && a.HitDefer.Parent() == nil {
+		latScope = append(latScope, a.HitDefer) // `defer finishResult(&res, &err)`: a named function
+	}
+	for _, fn := range latScope {
 		eachInstr(fn, func(i ssa.Instruction) {
 			if st, ok := resultFieldStore(i, "Latency"); ok {
 				latStores = append(latStores, st)
@@ -1206,7 +1329,53 @@ func runC05(c *Ctx) {
 	}
 	okL := len(latStores) == 1 && a.HitDefer != nil && latStores[0].Parent() == a.HitDefer
 	whyL := fmt.Sprintf("%d stores to Result.Latency; want exactly one, in the deferred closure", len(latStores))
-	if okL {
+	explicitLatency := false
+	if !okL && len(latStores) == 1 && latStores[0].Parent() == hit {
+		// error-return style: hit hands the exchange to a helper and assigns the latency right after
+		// the helper returned, on the one path every return of hit goes through
+		st := latStores[0]
+		explicitLatency = true
+		okE := false
+		whyL = "latency is not time.Since(this result's Timestamp)"
+		if call, isCall := st.Val.(*ssa.Call); isCall && callName(&call.Call) == "time.Since" {
+			if u, isL := isLoad(call.Call.Args[0]); isL {
+				if fa, isFA := u.X.(*ssa.FieldAddr); isFA && isNamedType(fa.X.Type(), "lib", "Result") && fieldName(fa.X.Type(), fa.Field) == "Timestamp" && rootCell(fa.X) == rootCell(ts.Addr.(*ssa.FieldAddr).X) {
+					okE = true
+				}
+			}
+		}
+		if okE {
+			eachInstr(hit, func(i ssa.Instruction) {
+				if r, isR := i.(*ssa.Return); isR && !instrDominates(st, r) {
+					okE, whyL = false, "a return of hit is not preceded by the latency assignment"
+				}
+			})
+		}
+		if okE {
+			// everything that takes time (the transport call, wherever it lives) has returned before
+			withInline(func() {
+				dos := callsNamedI(hit, "(*net/http.Client).Do")
+				if len(dos) == 0 {
+					okE, whyL = false, "no client.Do reachable from hit"
+				}
+				for _, d := range dos {
+					site := d
+					for k := 0; k < 4 && site.Parent() != hit; k++ {
+						cs := singleSite(c.P, site.Parent())
+						if cs == nil {
+							break
+						}
+						site = cs
+					}
+					if site.Parent() != hit || !instrDominates(site, st) || !instrDominates(tsInHit, site) {
+						okE, whyL = false, "the latency is taken before the exchange has returned (or the exchange starts before the timestamp)"
+					}
+				}
+			}, hit)
+		}
+		okL = okE
+	}
+	if okL && !explicitLatency {
 		st := latStores[0]
 		call, isCall := st.Val.(*ssa.Call)
 		okL = isCall && callName(&call.Call) == "time.Since"
@@ -1225,7 +1394,7 @@ func runC05(c *Ctx) {
 			whyL = "the latency store is conditional"
 		}
 	}
-	if okL {
+	if okL && !explicitLatency {
 		var def *ssa.Defer
 		eachInstr(hit, func(i ssa.Instruction) {
 			if d, ok := i.(*ssa.Defer); ok && closureOf(d.Call.Value) == a.HitDefer {
@@ -1251,13 +1420,17 @@ func runC05(c *Ctx) {
 
 	// critical section precedes transport
 	keyT := "timestamp-before-transport:" + shortFn(hit)
-	dos := callsNamed(hit, "(*net/http.Client).Do")
-	okT := len(dos) >= 1
-	for _, d := range dos {
-		if !instrDominates(tsInHit, d) {
-			okT = false
+	var dos []ssa.Instruction
+	okT := false
+	withInline(func() {
+		dos = callsNamedI(hit, "(*net/http.Client).Do")
+		okT = len(dos) >= 1
+		for _, d := range dos {
+			if !instrDominates(tsInHit, d) {
+				okT = false
+			}
 		}
-	}
+	}, hit)
 	c.Check(okT, keyT, "the timestamp is taken before the request is handed to the transport", "critical section dominates client.Do", "client.Do is not dominated by the timestamp store", c.atsOr(dos, hit)...)
 
 	// End = Timestamp.Add(Latency)
